@@ -9,7 +9,7 @@ import Mdsort.Proofs.MainTextMacros
 import Mdsort.Proofs.MainTextLex
 import Mdsort.Proofs.MainTextLexTree
 import Mdsort.Proofs.ConfCfg4
-import Mdsort.Proofs.ConfAnywhere6
+import Mdsort.Proofs.ConfAnywhere7
 
 /-!
 # C14 - a configuration is accepted or rejected as a whole, and the parser is total
@@ -620,7 +620,8 @@ example :
 
 /-! ## Error classes at EVERY position of a written configuration
 
-The theorems `C14_error_second_stdin`, `C14_error_macro_reference`, `C14_error_unknown_unit` above speak of one
+The theorems `C14_error_second_stdin`, `C14_error_macro_reference`, `C14_error_unknown_unit`, `C14_error_exec_option_repeated`
+above speak of one
 parser function started in an arbitrary state.  `C14_error_anywhere_rejects_file` lifts them to whole files: take
 what `Spec.printBlocks` writes of a configuration of `Spec.ConfOK` up to ANY position (`Spec.RulePos`: behind any
 number of complete blocks, in a `stdin` or `maildir` block, behind any number of complete rules, and - to any
@@ -647,6 +648,15 @@ example : Spec.BadRef true "in${box}/x".toUTF8.toList ∧ Spec.BadRef false "${p
    ⟨by decide +kernel, [], "path".toUTF8.toList, [], by decide +kernel, by decide +kernel, by decide +kernel, fun _ => rfl⟩,
    by decide +kernel⟩
 
+/-- A defect of one of the classes "stdin already defined", "unknown macro" / "macro used in wrong context", unknown or
+ambiguous unit, "exec options cannot be repeated", written at ANY position of a written configuration - behind any well-formed
+blocks, rules, actions and parts of a condition, at any nesting depth (`Spec.RulePos`, `ActPos`, `CondPos`, all of whose
+parts must be well formed: `.ok`) - and followed by ANY text `tl`, makes `parseConfig` report a diagnostic; the first one is
+on line 1 (the written prefix is one line).  Hypotheses besides `.ok`: `Spec.BadRef` (the FIRST `$` of the string starts the
+reference, the name is not `path` or the context is not an action, the string itself is one STRING token), the strings before it in
+the same list mean themselves, the number of a `date` fits 32 bits, the unit word is a word (`Spec.badUnitWord`) and ends where
+it ends.  Not covered: files in another layout than `Spec.printBlocks` writes (checked by differential execution, stage 1c' of
+tools/props/c14.py), macro definitions before the defect, the lexer's own diagnostics. -/
 theorem C14_error_anywhere_rejects_file (home : Bytes) (rxOk : Pat → Bool) (tl : Bytes) (htl : Spec.tailOK tl = true) :
     -- "stdin already defined": a block written `stdin` behind a block that reads from stdin, at any two positions
     (∀ (pre : List PBlock) (b1 : PBlock) (mid : List PBlock) (b2 : PBlock) (post : List PBlock),
@@ -670,13 +680,17 @@ theorem C14_error_anywhere_rejects_file (home : Bytes) (rxOk : Pat → Bool) (tl
     (∀ (p : Spec.CondPos) (f : DateField) (c : DateCmp) (n : Nat) (w tail : Bytes), p.ok rxOk = true → n < 2 ^ 32 →
       Spec.badUnitWord w = true → (∀ x, tail.head? = some x → isKwChar x = false) →
       parseConfig home [] rxOk
-        (Spec.render (p.toks ++ (.kw .date :: (Spec.fieldToks f ++ [Spec.cmpTok c, .int n]))) ++ 32 :: (w ++ tail)) = .error 1) :=
+        (Spec.render (p.toks ++ (.kw .date :: (Spec.fieldToks f ++ [Spec.cmpTok c, .int n]))) ++ 32 :: (w ++ tail)) = .error 1) ∧
+    -- "exec options cannot be repeated": `exec` with `stdin` or `body` twice among its options, at any action position
+    (∀ (p : Spec.ActPos) (opts : List Kw), p.ok rxOk = true → Spec.optsRepeat opts = true →
+      parseConfig home [] rxOk (Spec.render (p.toks ++ (.kw .exec :: opts.map Spec.PTok.kw)) ++ tl) = .error 1) :=
   ⟨fun pre b1 mid b2 post h1 h2 h3 => Proofs.Conf.second_stdin_file home rxOk pre b1 mid b2 post h1 h2 h3,
    fun pre h1 h2 => Proofs.Conf.anywhere_second_stdin home rxOk pre h1 h2 tl htl,
    fun p site b hp hs hb => Proofs.Conf.anywhere_action_string home rxOk p hp site hs b hb tl htl,
    fun p site b hp hs hb => Proofs.Conf.anywhere_cond_string home rxOk p hp site hs b hb tl htl,
    fun pre l1 l2 b hpre h1 h2 hb => Proofs.Conf.anywhere_path home rxOk pre hpre l1 l2 h1 h2 b hb tl htl,
-   fun p f c n w tail hp hn hw ht => Proofs.Conf.anywhere_unit home rxOk p hp f c n hn w tail hw ht⟩
+   fun p f c n w tail hp hn hw ht => Proofs.Conf.anywhere_unit home rxOk p hp f c n hn w tail hw ht,
+   fun p opts hp ho => Proofs.Conf.anywhere_exec_option home rxOk p hp opts ho tl htl⟩
 
 /-! Non-vacuity of `C14_error_anywhere_rejects_file`, on concrete files: the positions and sites satisfy the
 hypotheses, the text is the one shown, the well-formed file is accepted and the file with the defect rejected on line 1. -/
@@ -697,7 +711,13 @@ example :
        " match all exec { \"y\" } exec stdin { \"z\" \"${u}\" \"w\" } } } }").toUTF8.toList ∧
     Proofs.Conf.isOkNonempty (parseConfig [] [] (fun _ => true) (Spec.render (p.toks ++ site.toks [118]) ++ close)) = true ∧
     Proofs.Conf.isErrorAt 1 (parseConfig [] [] (fun _ => true)
-      (Spec.render (p.toks ++ site.toks "${u}".toUTF8.toList) ++ close)) = true := by
+      (Spec.render (p.toks ++ site.toks "${u}".toUTF8.toList) ++ close)) = true ∧
+    -- the same position, `exec stdin body stdin { "z" } } } }`
+    Spec.optsRepeat [.stdin, .body, .stdin] = true ∧ Spec.optsRepeat [.stdin, .body] = false ∧
+    Proofs.Conf.isOkNonempty (parseConfig [] [] (fun _ => true)
+      (Spec.render (p.toks ++ (.kw .exec :: [Kw.stdin, .body].map Spec.PTok.kw)) ++ Spec.render (Spec.strsToks [[122]]) ++ close)) = true ∧
+    Proofs.Conf.isErrorAt 1 (parseConfig [] [] (fun _ => true)
+      (Spec.render (p.toks ++ (.kw .exec :: [Kw.stdin, .body, .stdin].map Spec.PTok.kw)) ++ (Spec.render (Spec.strsToks [[122]]) ++ close))) = true := by
   decide +kernel
 
 /-- An operand deep in a condition of a rule of a nested block: `isdirectory "${path}"`, and `date > 3` with the words
